@@ -106,3 +106,44 @@ def stmts_of(fnode):
 
     walk(fnode.body)
     return out
+
+
+def inline_locals(fnode, expr, depth=4):
+    """`expr` with every local name that has exactly one plain assignment in `fnode` (and is not a
+    parameter, loop target or augmented) replaced by the assigned expression: named temporaries
+    (moved = moveaxis(...); return reshape(moved, ...)) are seen through."""
+    import copy
+
+    params = {a.arg for a in fnode.args.args + fnode.args.kwonlyargs + fnode.args.posonlyargs}
+    defs, multi = {}, set()
+    for s in ast.walk(fnode):
+        if isinstance(s, ast.Assign):
+            for t in s.targets:
+                if isinstance(t, ast.Name):
+                    if t.id in defs:
+                        multi.add(t.id)
+                    defs[t.id] = s.value
+                else:
+                    for n in ast.walk(t):
+                        if isinstance(n, ast.Name) and isinstance(n.ctx, ast.Store):
+                            multi.add(n.id)
+        elif isinstance(s, (ast.AugAssign,)) and isinstance(s.target, ast.Name):
+            multi.add(s.target.id)
+        elif isinstance(s, (ast.For, ast.comprehension)):
+            for n in ast.walk(s.target):
+                if isinstance(n, ast.Name):
+                    multi.add(n.id)
+        elif isinstance(s, ast.Call) and isinstance(s.func, ast.Attribute) and isinstance(s.func.value, ast.Name) and s.func.attr in ("append", "insert", "pop", "remove", "extend", "sort", "reverse"):
+            multi.add(s.func.value.id)  # mutated containers are not named temporaries
+
+    class T(ast.NodeTransformer):
+        def __init__(self, d):
+            self.d = d
+
+        def visit_Name(self, n):
+            if isinstance(n.ctx, ast.Load) and n.id in defs and n.id not in multi and n.id not in params and self.d > 0:
+                v = copy.deepcopy(defs[n.id])
+                return T(self.d - 1).visit(v)
+            return n
+
+    return T(depth).visit(copy.deepcopy(expr))
